@@ -36,12 +36,16 @@ func (w *c13World) c13AssetOfDenom(d string) uint64 {
 
 func (w *c13World) c13AucInit() {
 	a, ctx := w.a, w.ctx
-	for _, app := range w.apps {
+	for ai, app := range w.apps {
+		// the keeper incentive is non-zero in every app (10 % / 2.5 % of the penalty): a liquidation through
+		// MsgLiquidateInternalKeeper then splits the penalty between the keeper and the collector, and only
+		// the collector's share may be booked as net fees
+		ki := sdk.MustNewDecFromStr([]string{"0.1", "0.025"}[ai%2])
 		a.AuctionKeeper.SetAuctionParams(ctx, auctiontypes.AuctionParams{AppId: app, AuctionDurationSeconds: c13AucDur, Buffer: sdk.MustNewDecFromStr("1.2"),
 			Cusp: sdk.MustNewDecFromStr("0.6"), Step: sdk.NewIntFromUint64(1), PriceFunctionType: 1, SurplusId: 1, DebtId: 2, DutchId: 3, BidDurationSeconds: 100})
 		a.NewliqKeeper.SetLiquidationWhiteListing(ctx, liqV2types.LiquidationWhiteListing{AppId: app, Initiator: true, IsDutchActivated: true,
 			DutchAuctionParam:  &liqV2types.DutchAuctionParam{Premium: sdk.MustNewDecFromStr("1.2"), Discount: sdk.MustNewDecFromStr("0.7"), DecrementFactor: sdk.NewInt(1)},
-			IsEnglishActivated: true, EnglishAuctionParam: &liqV2types.EnglishAuctionParam{DecrementFactor: sdk.NewInt(1)}, KeeeperIncentive: sdk.ZeroDec()})
+			IsEnglishActivated: true, EnglishAuctionParam: &liqV2types.EnglishAuctionParam{DecrementFactor: sdk.NewInt(1)}, KeeeperIncentive: ki})
 	}
 	a.NewaucKeeper.SetAuctionParams(ctx, auctionsV2types.AuctionParams{AuctionDurationSeconds: c13AucDur, Step: sdk.MustNewDecFromStr("0.1"),
 		WithdrawalFee: sdk.ZeroDec(), ClosingFee: sdk.ZeroDec(), MinUsdValueLeft: 100000, BidFactor: sdk.MustNewDecFromStr("0.01"),
@@ -227,10 +231,23 @@ func (w *c13World) c13V2Close() {
 	w.tr.p("op noop ok")
 }
 
+// the internal keeper (liquidator) of MsgLiquidateInternalKeeper and the external initiator
+func (w *c13World) c13Keeper() sdk.AccAddress    { return addrN(27) }
+func (w *c13World) c13Initiator() sdk.AccAddress { return addrN(26) }
+
 // a generation-2 vault liquidation settled by one full dutch bid: vault create (a fee inflow of its
-// own), collateral price drop, LiquidateIndividualVault, bid of the whole remaining debt
-func (w *c13World) c13V2Liquidation(app, out uint64, collIn int64) {
+// own), collateral price drop, liquidation, bid of the whole remaining debt.
+// mode 0: automatic liquidation (LiquidateIndividualVault as the liquidationsV2 sweep calls it);
+// mode 1: MsgLiquidateInternalKeeper (IsInternalKeeper: the keeper incentive is paid out of the penalty,
+//         the collector gets - and the net-fee book must record - only the rest);
+// mode 2: MsgLiquidateExternalKeeper (no vault; the penalty is booked as auction-module fees: the
+//         collector's coins and books must not move at all).
+func (w *c13World) c13V2Liquidation(app, out uint64, collIn int64, mode int) {
 	a := w.a
+	if mode == 2 {
+		w.c13V2External(app, out, collIn)
+		return
+	}
 	ep := w.ep[[2]uint64{app, out}]
 	in := sdk.NewInt(collIn)
 	class := w.c13Vault("create", app, out, vaulttypes.NewMsgCreateRequest(w.vuser, app, ep, in, in)) // price 2: CR 200 %
@@ -242,7 +259,12 @@ func (w *c13World) c13V2Liquidation(app, out uint64, collIn int64) {
 	vid := a.VaultKeeper.GetIDForVault(w.ctx)
 	setPrice(a, w.ctx, w.assets[0], 1200000, true) // CR 120 % < 150 %
 	before := a.NewaucKeeper.GetAuctionID(w.ctx)
-	res := w.c13Apply(func(ctx sdk.Context) error { return a.NewliqKeeper.LiquidateIndividualVault(ctx, vid, "", false) })
+	var res string
+	if mode == 1 {
+		res, _, _ = execMsg(a, w.ctx, liqV2types.NewMsgLiquidateInternalKeeperRequest(w.c13Keeper(), 0, vid))
+	} else {
+		res = w.c13Apply(func(ctx sdk.Context) error { return a.NewliqKeeper.LiquidateIndividualVault(ctx, vid, "", false) })
+	}
 	w.tr.p("op noop %s", res)
 	w.c13Obs()
 	after := a.NewaucKeeper.GetAuctionID(w.ctx)
@@ -252,17 +274,57 @@ func (w *c13World) c13V2Liquidation(app, out uint64, collIn int64) {
 		return
 	}
 	au, _ := a.NewaucKeeper.GetAuction(w.ctx, after)
+	lv, _ := a.NewliqKeeper.GetLockedVault(w.ctx, au.AppId, au.LockedVaultId)
 	d := au.DebtToken.Denom
 	bal0 := bal(a, w.ctx, modAddr("collectorV1"), d)
+	kee0 := bal(a, w.ctx, w.c13Keeper(), d)
 	class, _, _ = execMsg(a, w.ctx, &auctionsV2types.MsgPlaceMarketBidRequest{AuctionId: after, Bidder: w.c13Bidder().String(), Amount: au.DebtToken})
 	delta := bal(a, w.ctx, modAddr("collectorV1"), d).Sub(bal0)
+	keeDelta := bal(a, w.ctx, w.c13Keeper(), d).Sub(kee0)
 	_, err := a.NewaucKeeper.GetAuction(w.ctx, after)
 	setPrice(a, w.ctx, w.assets[0], 2000000, true)
-	if class == "ok" && err != nil { // the auction is closed: the penalty went to the collector
+	if class == "ok" && err != nil { // the auction is closed: the penalty went to the collector (and the keeper)
+		w.tr.p("note v2pen:internal_keeper=%s", b2s(lv.IsInternalKeeper))
+		if keeDelta.IsPositive() {
+			w.tr.p("note v2pen:keeper_incentive_paid")
+		}
+		// the split itself: penalty = collector share + keeper share (anything else is reported as a
+		// penalty op whose amount is not what reached the collector -> holds_C13_delta / _flow fail)
+		if !delta.Add(keeDelta).Equal(lv.FeeToBeCollected) {
+			w.tr.p("note v2pen:split_mismatch")
+		}
 		w.tr.p("op v2pen %d %d %d %s ok", au.AppId, au.CollateralAssetId, au.DebtAssetId, delta)
 	} else {
 		w.tr.p("op noop %s", class)
 	}
+}
+
+// an externally initiated auction (MsgLiquidateExternalKeeper) closed by one full bid: no op of the
+// collector model - every unit must leave the collector's coins and books as they were
+func (w *c13World) c13V2External(app, out uint64, collIn int64) {
+	a := w.a
+	dOut := w.denom[out]
+	coll := sdk.NewCoin(w.denom[w.assets[0]], sdk.NewInt(collIn))
+	debt := sdk.NewCoin(dOut, sdk.NewInt(collIn)) // collateral at 2.0: debt value = half the collateral value
+	fund(w.t, a, w.ctx, w.c13Initiator(), sdk.NewCoins(coll, sdk.NewCoin(dOut, sdk.NewInt(1000000))))
+	class, _, _ := execMsg(a, w.ctx, liqV2types.NewMsgAppReserveFundsRequest(w.c13Initiator().String(), app, out, sdk.NewCoin(dOut, sdk.NewInt(1000000))))
+	w.tr.p("op noop %s", class)
+	w.c13Obs()
+	before := a.NewaucKeeper.GetAuctionID(w.ctx)
+	class, _, _ = execMsg(a, w.ctx, liqV2types.NewMsgLiquidateExternalKeeperRequest(w.c13Initiator(), app, w.vuser.String(), coll, debt, w.assets[0], out, false))
+	w.tr.p("op noop %s", class)
+	w.c13Obs()
+	after := a.NewaucKeeper.GetAuctionID(w.ctx)
+	if class != "ok" || after != before+1 {
+		w.tr.p("op noop ok")
+		return
+	}
+	au, _ := a.NewaucKeeper.GetAuction(w.ctx, after)
+	class, _, _ = execMsg(a, w.ctx, &auctionsV2types.MsgPlaceMarketBidRequest{AuctionId: after, Bidder: w.c13Bidder().String(), Amount: au.DebtToken})
+	if _, err := a.NewaucKeeper.GetAuction(w.ctx, after); class == "ok" && err != nil {
+		w.tr.p("note v2ext:closed")
+	}
+	w.tr.p("op noop %s", class)
 }
 
 func (w *c13World) c13AuctionOp(r *rng, app, asset uint64) {
@@ -302,7 +364,8 @@ func (w *c13World) c13AuctionOp(r *rng, app, asset uint64) {
 			w.c13V1Debt(app, asset)
 		}
 	default:
-		w.c13V2Liquidation(app, asset, coll)
+		// automatic / internal keeper (twice as often: the penalty split) / external
+		w.c13V2Liquidation(app, asset, coll, int(r.pickI(0, 1, 1, 2)))
 	}
 }
 
@@ -350,8 +413,17 @@ func (w *c13World) c13Scenario(r *rng, app, asset uint64) {
 // ---- directed cases: the refutation witnesses of Properties/C13.v on the real keepers ---------
 
 // C13-F1 (repaired): generation-2 liquidation penalty; booked under the debt asset it is paid in
+// through MsgLiquidateInternalKeeper with a keeper incentive of 10 %: 12 % penalty on 20 000 000 = 2 400 000,
+// of which 240 000 go to the keeper and 2 160 000 to the collector and into the net-fee book
+// (regression of seeded/C13-3: booking the gross penalty); then the same automatically and externally
 func (w *c13World) c13DirectedPenalty() {
-	w.c13V2Liquidation(w.apps[0], w.assets[1], 20000000)
+	w.c13V2Liquidation(w.apps[0], w.assets[1], 20000000, 1)
+	w.c13Obs()
+	w.c13V2Liquidation(w.apps[1], w.assets[2], 7000000, 1)
+	w.c13Obs()
+	w.c13V2Liquidation(w.apps[0], w.assets[1], 5000000, 0)
+	w.c13Obs()
+	w.c13V2Liquidation(w.apps[0], w.assets[2], 3000000, 2)
 	w.c13Obs()
 }
 
